@@ -208,20 +208,20 @@ package vers
 //@   ensures pairs: result1 ==> (forall i int :: forall j int :: 0 <= i && i < j && j < len(constraints) && isLower(constraints[i]) && isUpper(constraints[j]) && (forall k int :: i < k && k < j ==> !isLower(constraints[k]) && !isUpper(constraints[k])) ==> (exists m int :: 0 <= m && m < len(result0) && result0[m] == pairIv(constraints[i], constraints[j])))   [C04] using content
 //@   ensures leading-upper: result1 ==> (forall j int :: 0 <= j && j < len(constraints) && isUpper(constraints[j]) && (forall k int :: 0 <= k && k < j ==> !isLower(constraints[k]) && !isUpper(constraints[k])) ==> (exists m int :: 0 <= m && m < len(result0) && result0[m] == upperIv(constraints[j])))   [C04] using content
 //@   ensures trailing-lower: result1 ==> (forall i int :: 0 <= i && i < len(constraints) && isLower(constraints[i]) && (forall k int :: i < k && k < len(constraints) ==> !isLower(constraints[k]) && !isUpper(constraints[k])) ==> (exists m int :: 0 <= m && m < len(result0) && result0[m] == lowerIv(constraints[i])))   [C04] using content
-//@   ensures alternating-ok: (exists b int :: 0 <= b && b < len(constraints) && (isLower(constraints[b]) || isUpper(constraints[b]))) && !result1 ==> (exists i int :: exists j int :: 0 <= i && i < j && j < len(constraints) && (isLower(constraints[i]) || isUpper(constraints[i])) && isLower(constraints[i]) == isLower(constraints[j]) && isUpper(constraints[i]) == isUpper(constraints[j]) && (forall k int :: i < k && k < j ==> !isLower(constraints[k]) && !isUpper(constraints[k])))   [C04]
+//@   ensures alternating-ok: (exists b int :: 0 <= b && b < len(constraints) && (isLower(constraints[b]) || isUpper(constraints[b]))) && !result1 ==> (exists i int :: exists j int :: 0 <= i && i < j && j < len(constraints) && (isLower(constraints[i]) || isUpper(constraints[i])) && isLower(constraints[i]) == isLower(constraints[j]) && isUpper(constraints[i]) == isUpper(constraints[j]) && (forall k int :: i < k && k < j ==> !isLower(constraints[k]) && !isUpper(constraints[k])))   [C04] using local
 //@   ensures two-lower: (exists i int :: exists j int :: 0 <= i && i < j && j < len(constraints) && isLower(constraints[i]) && isLower(constraints[j]) && (forall k int :: i < k && k < j ==> !isLower(constraints[k]) && !isUpper(constraints[k]))) ==> !result1   [C04] using alt
 //@   ensures two-upper: (exists i int :: exists j int :: 0 <= i && i < j && j < len(constraints) && isUpper(constraints[i]) && isUpper(constraints[j]) && (forall k int :: i < k && k < j ==> !isLower(constraints[k]) && !isUpper(constraints[k]))) ==> !result1   [C04] using alt
 
 // ---- grouping (C04): '=' constraints become point intervals; when the bounds alternate the paired intervals follow
 //@ spec exactIv(c constraint) interval = mk(interval, "", false, "", false, c.version, "")
 //@ func groupConstraintsIntoIntervals
-//@   loop 1 invariant forall i int :: 0 <= i && i <= rangeindex && constraints[i].operator == "=" ==> (exists m int :: 0 <= m && m < len(exactMatches) && exactMatches[m] == constraints[i])
-//@   loop 1 invariant forall m int :: 0 <= m && m < len(exactMatches) ==> (exists i int :: 0 <= i && i <= rangeindex && constraints[i].operator == "=" && exactMatches[m] == constraints[i])
+//@   loop 1 invariant pts: forall i int :: 0 <= i && i <= rangeindex && constraints[i].operator == "=" ==> (exists m int :: 0 <= m && m < len(exactMatches) && exactMatches[m] == constraints[i])
+//@   loop 1 invariant org: forall m int :: 0 <= m && m < len(exactMatches) ==> (exists i int :: 0 <= i && i <= rangeindex && constraints[i].operator == "=" && exactMatches[m] == constraints[i])
 //@   loop 2 invariant len(intervals) == rangeindex + 1 && (forall n int :: 0 <= n && n <= rangeindex ==> intervals[n] == exactIv(exactMatches[n]))
 //@   ensures no-error: result1 == nil   [C04]
-//@   ensures points: pairAlternatingBounds(constraints).1 ==> (forall i int :: 0 <= i && i < len(constraints) && constraints[i].operator == "=" ==> (exists m int :: 0 <= m && m < len(result0) && result0[m] == exactIv(constraints[i])))   [C04] using local
+//@   ensures points: pairAlternatingBounds(constraints).1 ==> (forall i int :: 0 <= i && i < len(constraints) && constraints[i].operator == "=" ==> (exists m int :: 0 <= m && m < len(result0) && result0[m] == exactIv(constraints[i])))   [C04] using pts
 //@   ensures paired: pairAlternatingBounds(constraints).1 ==> (forall n int :: 0 <= n && n < len(pairAlternatingBounds(constraints).0) ==> (exists m int :: 0 <= m && m < len(result0) && result0[m] == pairAlternatingBounds(constraints).0[n]))   [C04] using local
-//@   ensures origin: pairAlternatingBounds(constraints).1 ==> (forall m int :: 0 <= m && m < len(result0) ==> ((exists i int :: 0 <= i && i < len(constraints) && constraints[i].operator == "=" && result0[m] == exactIv(constraints[i])) || (exists n int :: 0 <= n && n < len(pairAlternatingBounds(constraints).0) && result0[m] == pairAlternatingBounds(constraints).0[n])))   [C04] using local
+//@   ensures origin: pairAlternatingBounds(constraints).1 ==> (forall m int :: 0 <= m && m < len(result0) ==> ((exists i int :: 0 <= i && i < len(constraints) && constraints[i].operator == "=" && result0[m] == exactIv(constraints[i])) || (exists n int :: 0 <= n && n < len(pairAlternatingBounds(constraints).0) && result0[m] == pairAlternatingBounds(constraints).0[n])))   [C04] using org,pts
 
 // ---- intervals to native ranges (C04): every non-empty range text of every interval is parsed by the ecosystem
 //@ spec rangeTexts(name string, iv interval) []string = name == "alpine" ? intervalToAlpineRanges(iv) : (name == "cargo" ? intervalToCargoRanges(iv) : (name == "debian" ? intervalToDebianRanges(iv) : (name == "gem" ? intervalToGemRanges(iv) : (name == "maven" ? intervalToMavenRanges(iv) : (name == "npm" ? intervalToNpmRanges(iv) : (name == "nuget" ? intervalToNugetRanges(iv) : (name == "pypi" ? intervalToPypiRanges(iv) : (name == "rpm" ? intervalToRpmRanges(iv) : (name == "semver" ? intervalToSemverRanges(iv) : intervalToGolangRanges(iv))))))))))
